@@ -5,7 +5,8 @@
   `bitd2bmp (callOf img data)` is the real entry point on a fresh process (C13 shows the process history is irrelevant).
 -/
 import Drx.BitdSpec
-import DrxProofs.Bitd8Top
+import DrxProofs.BitdWitness
+import DrxProofs.BitdPack
 namespace Drx.C06
 open Drx Drx.Bitd Drx.Bitd.Spec
 
@@ -103,5 +104,253 @@ theorem C06_8bit_identity_raw_packed_partial (W H ox oy : Nat) (rows : List (Lis
     simp only
     split <;> split <;> omega
   rw [hbw, Nat.sub_self, Nat.zero_mul, zeros_zero, List.append_nil]
+
+/-! ### the PackBits lemma -/
+
+/-- reading what the encoder wrote gives back the bytes the operations stand for — for ALL lists of valid operations -/
+theorem C06_packbits_unpack (ops : List Op) (hv : ∀ o ∈ ops, o.valid = true) : unpackBits (packed ops) = some (unpack ops) :=
+  unpackBits_packed ops hv
+
+/-- ... and the stream of a whole image reads back as the concatenation of its scan lines -/
+theorem C06_packbits_rows (opsRows : List (List Op)) (rows : List Bytes) (hv : validRows opsRows rows = true) :
+    unpackBits (packed opsRows.flatten) = some rows.flatten :=
+  unpackBits_rows opsRows rows hv
+
+example : unpackBits (packed [.lit [1, 2, 3], .run 5 9, .lit [4]]) = some [1, 2, 3, 9, 9, 9, 9, 9, 4] :=
+  C06_packbits_unpack _ (by decide)
+
+/-! ### 1 bit per pixel: all geometries, raw and every scan-line segmentation, any alignment bits -/
+
+/-- the bytes produced for a 1-bit image do not depend on how it is stored -/
+theorem C06_1bit_bytes (W H ox oy : Nat) (rows : List (List Bool)) (p1 p2 : UInt8) (e : Enc)
+    (hq : InQuantifier ⟨W, H, ox, oy, .d1 rows⟩ p1 p2 e) :
+    bitd2bmp (callOf ⟨W, H, ox, oy, .d1 rows⟩ (serialise ⟨W, H, ox, oy, .d1 rows⟩ p1 p2 e))
+      = .ok (hdr1 W H ++ (fileRows1 (stride4 W) ox (W - ox) oy (rows.map fun r => r.map pxByte)).flatten) := by
+  obtain ⟨hwf, hfit, hv, hne⟩ := hq
+  cases e with
+  | raw => exact bitd2bmp_1_raw W H ox oy rows p1 p2 hwf hfit
+  | packed opsRows =>
+    have hne' : (serialise ⟨W, H, ox, oy, .d1 rows⟩ p1 p2 (.packed opsRows)).length ≠ (serialise ⟨W, H, ox, oy, .d1 rows⟩ p1 p2 .raw).length := by
+      rcases hne with h | h
+      · cases h
+      · exact h
+    exact bitd2bmp_1_packed W H ox oy rows p1 p2 opsRows hwf hfit hv hne'
+
+/-- C06, 1-bit images: raw storage and every valid scan-line PackBits encoding, every geometry -/
+theorem C06_1bit_partial (W H ox oy : Nat) (rows : List (List Bool)) (p1 p2 : UInt8) (e : Enc)
+    (hq : InQuantifier ⟨W, H, ox, oy, .d1 rows⟩ p1 p2 e) : ReadsBack ⟨W, H, ox, oy, .d1 rows⟩ p1 p2 e := by
+  obtain ⟨hox, hoy, hrows, hpix⟩ := wf1 W H ox oy rows hq.1
+  have hfit := hq.2.1
+  simp only [fitsHeader, decide_eq_true_eq] at hfit
+  obtain ⟨hW, hH, _⟩ := fits_bounds W H hfit
+  refine ⟨_, C06_1bit_bytes W H ox oy rows p1 p2 e hq, ?_⟩
+  have := read_bmp1 W H ox oy hox hoy hW hH rows hrows hpix []
+  rw [List.append_nil] at this
+  exact this
+
+/-- any two encodings of one 1-bit image (raw or packed, any alignment bits) give identical BMP bytes -/
+theorem C06_1bit_identity (W H ox oy : Nat) (rows : List (List Bool)) (p1 p2 q1 q2 : UInt8) (e e' : Enc)
+    (h : InQuantifier ⟨W, H, ox, oy, .d1 rows⟩ p1 p2 e) (h' : InQuantifier ⟨W, H, ox, oy, .d1 rows⟩ q1 q2 e') :
+    bitd2bmp (callOf ⟨W, H, ox, oy, .d1 rows⟩ (serialise ⟨W, H, ox, oy, .d1 rows⟩ p1 p2 e))
+      = bitd2bmp (callOf ⟨W, H, ox, oy, .d1 rows⟩ (serialise ⟨W, H, ox, oy, .d1 rows⟩ q1 q2 e')) := by
+  rw [C06_1bit_bytes W H ox oy rows p1 p2 e h, C06_1bit_bytes W H ox oy rows q1 q2 e' h']
+
+example : InQuantifier ⟨13, 2, 1, 0, .d1 [[true, false, true, true, false, false, true, false, true, true, true, false],
+                                           [false, false, false, false, false, false, false, false, true, true, true, true]]⟩ 0xFF 0xAA
+    (.packed [[.lit [0xB2], .lit [0xEF]], [.lit [0x00, 0xFF]]]) := by decide
+
+/-! ### 16 and 32 bits per pixel: no offsets, PackBits storage -/
+
+/-- the bytes produced for a 16-bit image: no offsets, every operation inside one byte plane -/
+theorem C06_16bit_packed_bytes (W H : Nat) (rows : List (List (UInt8 × UInt8))) (p1 p2 : UInt8) (opsRows : List (List Op))
+    (hq : InQuantifier ⟨W, H, 0, 0, .d16 rows⟩ p1 p2 (.packed opsRows)) (hst : ∀ ops ∈ opsRows, straddles W 0 ops = false) :
+    bitd2bmp (callOf ⟨W, H, 0, 0, .d16 rows⟩ (serialise ⟨W, H, 0, 0, .d16 rows⟩ p1 p2 (.packed opsRows)))
+      = .ok (hdr16 W H ++ ((lines16 rows).reverse.map (bmpRow16 W)).flatten) := by
+  obtain ⟨hwf, hfit, hv, hne⟩ := hq
+  have hne' : (serialise ⟨W, H, 0, 0, .d16 rows⟩ p1 p2 (.packed opsRows)).length ≠ (serialise ⟨W, H, 0, 0, .d16 rows⟩ p1 p2 .raw).length := by
+    rcases hne with h | h
+    · cases h
+    · exact h
+  exact bitd2bmp_16_packed W H rows p1 p2 opsRows hwf hfit hv hne' hst
+
+/-- the bytes produced for a 32-bit image: no offsets, a stream that does not have the length of the decoder's raw test -/
+theorem C06_32bit_packed_bytes (W H : Nat) (rows : List (List Px32)) (p1 p2 : UInt8) (opsRows : List (List Op))
+    (hq : InQuantifier ⟨W, H, 0, 0, .d32 rows⟩ p1 p2 (.packed opsRows))
+    (hne2 : (packed opsRows.flatten).length ≠ 2 * W * H) :
+    bitd2bmp (callOf ⟨W, H, 0, 0, .d32 rows⟩ (serialise ⟨W, H, 0, 0, .d32 rows⟩ p1 p2 (.packed opsRows)))
+      = .ok (hdr24 W H ++ ((lines32 rows).reverse.map (bmpRow24 W)).flatten) := by
+  obtain ⟨hwf, hfit, hv, hne⟩ := hq
+  have hne' : (serialise ⟨W, H, 0, 0, .d32 rows⟩ p1 p2 (.packed opsRows)).length ≠ (serialise ⟨W, H, 0, 0, .d32 rows⟩ p1 p2 .raw).length := by
+    rcases hne with h | h
+    · cases h
+    · exact h
+  exact bitd2bmp_32_packed W H rows p1 p2 opsRows hwf hfit hv hne' hne2
+
+/-! ### the property on the supported class (`Spec.supportedB` = complement of the open findings) -/
+
+/-- C06 (first clause) for every input the decidable predicate `supportedB` accepts:
+    depth 1 and 8: everything; depth 16: no offsets, packed, no operation across the plane boundary;
+    depth 32: no offsets, packed, stream length ≠ 2·w·h -/
+theorem C06_partial (i : Img) (p1 p2 : UInt8) (e : Enc) (hq : InQuantifier i p1 p2 e) (hs : supportedB i e = true) :
+    ReadsBack i p1 p2 e := by
+  obtain ⟨W, H, ox, oy, pix⟩ := i
+  cases pix with
+  | d1 rows => exact C06_1bit_partial W H ox oy rows p1 p2 e hq
+  | d8 rows => exact C06_8bit_partial W H ox oy rows p1 p2 e hq
+  | d16 rows =>
+    cases e with
+    | raw => simp [supportedB] at hs
+    | packed opsRows =>
+      simp only [supportedB, Bool.and_eq_true, beq_iff_eq, List.all_eq_true, Bool.not_eq_true'] at hs
+      obtain ⟨_, ⟨hox, hoy⟩, hst⟩ := hs
+      subst hox hoy
+      obtain ⟨_, _, hrows, hpix⟩ := wf16 W H 0 0 rows hq.1
+      have hfit := hq.2.1
+      simp only [fitsHeader, decide_eq_true_eq] at hfit
+      obtain ⟨hW, hH, _⟩ := fits_bounds W H hfit
+      refine ⟨_, C06_16bit_packed_bytes W H rows p1 p2 opsRows hq (by simpa [Img.w] using hst), ?_⟩
+      have := read_bmp16 W H hW hH rows (by simpa using hrows) (by simpa using hpix)
+      rw [List.append_nil] at this
+      exact this
+  | d32 rows =>
+    cases e with
+    | raw => simp [supportedB] at hs
+    | packed opsRows =>
+      simp only [supportedB, Bool.and_eq_true, beq_iff_eq, bne_iff_ne, ne_eq] at hs
+      obtain ⟨_, ⟨hox, hoy⟩, hlen⟩ := hs
+      subst hox hoy
+      obtain ⟨_, _, hrows, hpix⟩ := wf32 W H 0 0 rows hq.1
+      have hfit := hq.2.1
+      simp only [fitsHeader, decide_eq_true_eq] at hfit
+      obtain ⟨hW, hH, _⟩ := fits_bounds W H hfit
+      refine ⟨_, C06_32bit_packed_bytes W H rows p1 p2 opsRows hq (by simpa [Img.w, Img.h] using hlen), ?_⟩
+      have := read_bmp24 W H hW hH rows (by simpa using hrows) (by simpa using hpix)
+      rw [List.append_nil] at this
+      exact this
+
+example : InQuantifier ⟨3, 2, 0, 0, .d16 [[(1, 2), (3, 4), (5, 6)], [(7, 7), (7, 7), (7, 8)]]⟩ 0 0
+      (.packed [[.lit [1, 3, 5], .lit [2], .lit [4, 6]], [.run 3 7, .lit [7, 7, 8]]]) ∧
+    supportedB ⟨3, 2, 0, 0, .d16 [[(1, 2), (3, 4), (5, 6)], [(7, 7), (7, 7), (7, 8)]]⟩
+      (.packed [[.lit [1, 3, 5], .lit [2], .lit [4, 6]], [.run 3 7, .lit [7, 7, 8]]]) = true := by decide
+
+/-- C06 (second clause) on the supported class: two encodings of one image give identical BMP bytes, unless one is raw,
+    the other packed and the 8-bit geometry is in the F30b class -/
+theorem C06_identity_partial (i : Img) (p1 p2 q1 q2 : UInt8) (e e' : Enc)
+    (h : InQuantifier i p1 p2 e) (h' : InQuantifier i q1 q2 e') (hs : supportedB i e = true) (hs' : supportedB i e' = true)
+    (hgeo : (e = .raw ↔ e' = .raw) ∨ i.pix.depth ≠ 8 ∨ ¬ F30bGeo i.W i.ox) :
+    bitd2bmp (callOf i (serialise i p1 p2 e)) = bitd2bmp (callOf i (serialise i q1 q2 e')) := by
+  obtain ⟨W, H, ox, oy, pix⟩ := i
+  cases pix with
+  | d1 rows => exact C06_1bit_identity W H ox oy rows p1 p2 q1 q2 e e' h h'
+  | d8 rows =>
+    cases e with
+    | raw =>
+      cases e' with
+      | raw => rw [C06_8bit_raw_bytes W H ox oy rows p1 p2 h, C06_8bit_raw_bytes W H ox oy rows q1 q2 h']
+      | packed b =>
+        have hg : ¬ F30bGeo W ox := by
+          rcases hgeo with hg | hg | hg
+          · exact absurd (hg.mp rfl) (by simp)
+          · exact absurd rfl hg
+          · exact hg
+        exact C06_8bit_identity_raw_packed_partial W H ox oy rows p1 p2 q1 q2 b hg h h'
+    | packed a =>
+      cases e' with
+      | raw =>
+        have hg : ¬ F30bGeo W ox := by
+          rcases hgeo with hg | hg | hg
+          · exact absurd (hg.mpr rfl) (by simp)
+          · exact absurd rfl hg
+          · exact hg
+        exact (C06_8bit_identity_raw_packed_partial W H ox oy rows q1 q2 p1 p2 a hg h' h).symm
+      | packed b => exact C06_8bit_identity_packed W H ox oy rows p1 p2 q1 q2 a b h h'
+  | d16 rows =>
+    cases e with
+    | raw => simp [supportedB] at hs
+    | packed a =>
+      cases e' with
+      | raw => simp [supportedB] at hs'
+      | packed b =>
+        simp only [supportedB, Bool.and_eq_true, beq_iff_eq, List.all_eq_true, Bool.not_eq_true'] at hs hs'
+        obtain ⟨_, ⟨hox, hoy⟩, hst⟩ := hs
+        obtain ⟨_, _, hst'⟩ := hs'
+        subst hox hoy
+        rw [C06_16bit_packed_bytes W H rows p1 p2 a h (by simpa [Img.w] using hst),
+            C06_16bit_packed_bytes W H rows q1 q2 b h' (by simpa [Img.w] using hst')]
+  | d32 rows =>
+    cases e with
+    | raw => simp [supportedB] at hs
+    | packed a =>
+      cases e' with
+      | raw => simp [supportedB] at hs'
+      | packed b =>
+        simp only [supportedB, Bool.and_eq_true, beq_iff_eq, bne_iff_ne, ne_eq] at hs hs'
+        obtain ⟨_, ⟨hox, hoy⟩, hlen⟩ := hs
+        obtain ⟨_, _, hlen'⟩ := hs'
+        subst hox hoy
+        rw [C06_32bit_packed_bytes W H rows p1 p2 a h (by simpa [Img.w, Img.h] using hlen),
+            C06_32bit_packed_bytes W H rows q1 q2 b h' (by simpa [Img.w, Img.h] using hlen')]
+
+/-! ### the excluded classes really fail (each replayed on the real code: corpus/C06/open_*.json) -/
+
+/-- F34: raw 16-bit storage -/
+theorem C06_witness_F34 : InQuantifier ⟨1, 1, 0, 0, .d16 [[(1, 2)]]⟩ 0 0 .raw ∧ ¬ ReadsBack ⟨1, 1, 0, 0, .d16 [[(1, 2)]]⟩ 0 0 .raw := by
+  refine ⟨by decide, ?_⟩
+  rintro ⟨bmp, h, _⟩
+  rw [w_f34] at h
+  cases h
+
+/-- F34: a valid 32-bit PackBits stream of exactly 2·w·h bytes -/
+theorem C06_witness_F34b :
+    InQuantifier ⟨2, 1, 0, 0, .d32 [[(7, 7, 7, 7), (7, 7, 7, 7)]]⟩ 0 0 (.packed [[.run 4 7, .run 4 7]]) ∧
+    ¬ ReadsBack ⟨2, 1, 0, 0, .d32 [[(7, 7, 7, 7), (7, 7, 7, 7)]]⟩ 0 0 (.packed [[.run 4 7, .run 4 7]]) := by
+  refine ⟨by decide, ?_⟩
+  rintro ⟨bmp, h, _⟩
+  rw [w_f34b] at h
+  cases h
+
+/-- F90: a literal across the plane boundary of a 16-bit line -/
+theorem C06_witness_F90 : InQuantifier img90 0 0 enc90 ∧ ¬ ReadsBack img90 0 0 enc90 := by
+  refine ⟨by decide, ?_⟩
+  rintro ⟨bmp, h, hr⟩
+  rw [w_f90] at h
+  cases h
+  exact w_f90_read hr
+
+/-- F91: a 16-bit image at a non-zero left offset -/
+theorem C06_witness_F91 : InQuantifier img91 0 0 enc91 ∧ ¬ ReadsBack img91 0 0 enc91 := by
+  refine ⟨by decide, ?_⟩
+  rintro ⟨bmp, h, hr⟩
+  rw [w_f91] at h
+  cases h
+  exact w_f91_read hr
+
+/-- F92: a 32-bit image at a non-zero left offset -/
+theorem C06_witness_F92 : InQuantifier img92 0 0 enc92 ∧ ¬ ReadsBack img92 0 0 enc92 := by
+  refine ⟨by decide, ?_⟩
+  rintro ⟨bmp, h, hr⟩
+  rw [w_f92] at h
+  cases h
+  exact w_f92_read hr
+
+/-- F30b: raw and packed storage of one 8-bit image (canvas width 4, three pixels per line) differ in length -/
+theorem C06_witness_F30b :
+    InQuantifier ⟨4, 1, 1, 0, .d8 [[1, 2, 3]]⟩ 0 0 .raw ∧ InQuantifier ⟨4, 1, 1, 0, .d8 [[1, 2, 3]]⟩ 0 0 (.packed [[.lit [1, 2, 3, 0]]]) ∧
+    bitd2bmp (callOf ⟨4, 1, 1, 0, .d8 [[1, 2, 3]]⟩ (serialise ⟨4, 1, 1, 0, .d8 [[1, 2, 3]]⟩ 0 0 .raw))
+      ≠ bitd2bmp (callOf ⟨4, 1, 1, 0, .d8 [[1, 2, 3]]⟩ (serialise ⟨4, 1, 1, 0, .d8 [[1, 2, 3]]⟩ 0 0 (.packed [[.lit [1, 2, 3, 0]]]))) := by
+  have hr : InQuantifier ⟨4, 1, 1, 0, .d8 [[1, 2, 3]]⟩ 0 0 .raw := by decide
+  have hp : InQuantifier ⟨4, 1, 1, 0, .d8 [[1, 2, 3]]⟩ 0 0 (.packed [[.lit [1, 2, 3, 0]]]) := by decide
+  refine ⟨hr, hp, ?_⟩
+  rw [C06_8bit_raw_bytes 4 1 1 0 [[1, 2, 3]] 0 0 hr, C06_8bit_packed_bytes 4 1 1 0 [[1, 2, 3]] 0 0 [[.lit [1, 2, 3, 0]]] hp]
+  intro h
+  have h2 := congrArg (fun r => match r with | .ok b => b.length | .error _ => 0) h
+  simp only [List.length_append, zeros_length] at h2
+  have hbw : ((g8 4 1 (stride4 4)).bw - stride4 4) * 1 = 4 := by decide
+  omega
+
+/-- hence the full statement does not hold for the code as it is -/
+theorem C06_full_fails : ¬ C06_full := by
+  intro h
+  exact C06_witness_F34.2 (h.1 _ _ _ _ C06_witness_F34.1)
 
 end Drx.C06
